@@ -786,17 +786,15 @@ func (i *interpreter) appendCells(dst []value, src []value, elemT types.Type) []
 		}
 		return res
 	}
-	// grow like the runtime (approximately): double until it fits
-	nc := cap(dst) * 2
-	if nc < n {
-		nc = n
+	// grow exactly like runtime.growslice (go1.23, amd64): whether a later append writes into
+	// memory shared with another slice header depends on the capacity chosen here
+	var esz int64 = 1
+	noscan := true
+	if elemT != nil {
+		esz = stdSizes.Sizeof(elemT)
+		noscan = !typeHasPointers(elemT)
 	}
-	if nc < 8 {
-		nc = 8
-		if n > 8 {
-			nc = n
-		}
-	}
+	nc := growCap(cap(dst), n, esz, noscan)
 	res := make([]value, n, nc)
 	copy(res, dst)
 	copy(res[len(dst):], src)
@@ -1102,6 +1100,66 @@ func elemSizeOfSlice(t types.Type) int64 {
 }
 
 var stdSizes = types.SizesFor("gc", "amd64")
+
+var sizeClasses = []int64{0, 8, 16, 24, 32, 48, 64, 80, 96, 112, 128, 144, 160, 176, 192, 208, 224, 240, 256, 288, 320, 352, 384, 416, 448, 480, 512, 576, 640, 704, 768, 896, 1024, 1152, 1280, 1408, 1536, 1792, 2048, 2304, 2688, 3072, 3200, 3456, 4096, 4864, 5120, 5376, 6144, 6528, 6784, 6912, 8192, 9472, 9728, 10240, 10880, 12288, 13568, 14336, 16384, 18432, 19072, 20480, 21760, 24576, 27264, 28672, 32768}
+
+// roundupsize mirrors runtime.roundupsize (malloc header of 8 bytes for pointerful objects > 512 B).
+func roundupsize(size int64, noscan bool) int64 {
+	req := size
+	if !noscan && size > 512 {
+		size += 8
+	}
+	if size <= 32768-8 || (noscan && size <= 32768) {
+		for _, c := range sizeClasses {
+			if c >= size {
+				return c - (size - req)
+			}
+		}
+	}
+	size = req
+	const page = 8192
+	return (size + page - 1) / page * page
+}
+
+// growCap mirrors runtime.nextslicecap + the size-class rounding of growslice.
+func growCap(oldCap, newLen int, esz int64, noscan bool) int {
+	newcap := oldCap
+	doublecap := newcap + newcap
+	if newLen > doublecap {
+		newcap = newLen
+	} else {
+		const threshold = 256
+		if oldCap < threshold {
+			newcap = doublecap
+		} else {
+			for newcap < newLen {
+				newcap += (newcap + 3*threshold) >> 2
+			}
+		}
+	}
+	if esz <= 0 {
+		return newcap
+	}
+	mem := roundupsize(int64(newcap)*esz, noscan)
+	return int(mem / esz)
+}
+
+func typeHasPointers(t types.Type) bool {
+	switch u := t.Underlying().(type) {
+	case *types.Basic:
+		return u.Kind() == types.String || u.Kind() == types.UnsafePointer
+	case *types.Array:
+		return u.Len() > 0 && typeHasPointers(u.Elem())
+	case *types.Struct:
+		for k := 0; k < u.NumFields(); k++ {
+			if typeHasPointers(u.Field(k).Type()) {
+				return true
+			}
+		}
+		return false
+	}
+	return true
+}
 
 type stringIter struct {
 	cells []value
